@@ -46,7 +46,9 @@ const PLACES: [(&str, &str, bool); 15] = [
 const DECLS: &str = "struct Box[T] { v: T }\nenum Opt[T] { Som(T), Non }\ntrait Speak { fn speak(Self) -> string; }\nimpl Speak for uint16 { fn speak(self: uint16) -> string { \"u\" + uint16_to_string(self) } }\n";
 
 /// types that occur only in the signature of a method of a trait used as `dyn`
-const SIG_TYPES: [(&str, &str, &str); 8] = [
+const SIG_TYPES: [(&str, &str, &str); 10] = [
+    ("dyn-of-another-trait", "dyn Speak", "9u16"),
+    ("vector-of-dyn-of-another-trait", "Vec[dyn Speak]", "vec_new()"),
     ("tuple", "(int32, int64)", "(1, 2i64)"),
     ("nested-tuple", "((bool, string), int8)", "((true, \"s\"), 1i8)"),
     ("ref", "Ref[uint8]", "ref(1u8)"),
@@ -57,6 +59,34 @@ const SIG_TYPES: [(&str, &str, &str); 8] = [
     ("function-type-over-a-tuple", "((int8, int8)) -> int8", "pick8"),
 ];
 const SIG_IMPLS: [&str; 3] = ["no-impl", "impl-never-coerced", "impl-coerced"];
+
+/// types that occur only in a definition no expression of the program uses
+const DEF_TYPES: [(&str, &str); 13] = [
+    ("tuple", "(int32, int64)"),
+    ("nested-tuple", "((bool, string), int8)"),
+    ("ref", "Ref[uint8]"),
+    ("array", "[int16; 3]"),
+    ("vector-of-tuples", "Vec[(bool, bool)]"),
+    ("generic-struct-instance", "Box[int64]"),
+    ("generic-enum-instance", "Opt[uint32]"),
+    ("function-type-over-a-tuple", "((int8, int8)) -> int8"),
+    ("dyn", "dyn Speak"),
+    ("vector-of-dyn", "Vec[dyn Speak]"),
+    ("ref-of-dyn", "Ref[dyn Speak]"),
+    ("tuple-with-dyn", "(int32, dyn Speak)"),
+    ("dyn-of-a-trait-nothing-implements", "dyn Mute"),
+];
+/// (name, definition with § for the type)
+const DEF_PLACES: [(&str, &str); 8] = [
+    ("unused-struct-field", "struct Holder { f: § }\n"),
+    ("unused-enum-payload", "enum Slot { Full(§), Empty }\n"),
+    ("unused-generic-struct-field", "struct GH[A] { a: A, f: § }\n"),
+    ("unused-function-parameter", "fn nobody(x: §) -> int32 { 0 }\n"),
+    ("unused-trait-method-signature", "trait Unused { fn um(Self, §) -> int32; }\n"),
+    ("unused-method-parameter", "struct Owner { n: int32 }\nimpl Owner { fn om(self: Owner, x: §) -> int32 { self.n } }\n"),
+    ("field-of-a-struct-that-is-used", "struct Part { n: int32, extra: Opt[§] }\nfn part_n(p: Part) -> int32 { p.n }\n"),
+    ("payload-of-a-variant-never-built", "enum Two { Plain(int32), Rich(§) }\nfn two_n(t: Two) -> int32 { match t { Two::Plain(n) => n, Two::Rich(x) => 0 } }\n"),
+];
 
 fn signature_program(ty: &str, value: &str, at: &str, impls: &str) -> String {
     let sig = if at == "result" { format!("fn dims(Self) -> {};", ty) } else { format!("fn dims(Self, {}) -> int32;", ty) };
@@ -94,6 +124,11 @@ impl Family for HelperTypes {
                 v.push(json!({"place": p, "type": u}));
             }
         }
+        for (t, _) in DEF_TYPES {
+            for (p, _) in DEF_PLACES {
+                v.push(json!({"definition-type": t, "definition": p}));
+            }
+        }
         for (t, _, _) in SIG_TYPES {
             for at in ["result", "parameter"] {
                 for i in SIG_IMPLS {
@@ -114,6 +149,22 @@ impl Family for HelperTypes {
             rep.outcome = Some(site.clone());
             let expected = if impls == "impl-coerced" { "1\n" } else { "0\n" };
             expect_text_program(ctx, &mut rep, "helper-types", case, &site, &text, expected, &["C02"], &["C02"], &["C02"]);
+            return rep;
+        }
+        if let Some(tn) = case["definition-type"].as_str() {
+            let (_, ty) = DEF_TYPES.iter().find(|(n, _)| *n == tn).unwrap();
+            let pn = case["definition"].as_str().unwrap();
+            let (_, def) = DEF_PLACES.iter().find(|(n, _)| *n == pn).unwrap();
+            let main = match pn {
+                "field-of-a-struct-that-is-used" => "fn main() {\n    string_println(int32_to_string(part_n(Part { n: 4, extra: Opt::Non })))\n}\n",
+                "payload-of-a-variant-never-built" => "fn main() {\n    string_println(int32_to_string(two_n(Two::Plain(4))))\n}\n",
+                _ => "fn main() {\n    string_println(\"4\")\n}\n",
+            };
+            let text = format!("{}trait Mute {{ fn mute(Self) -> int32; }}\n{}{}", DECLS, def.replace('§', ty), main);
+            let site = format!("helper-type={};only-in-definition={}", tn, pn);
+            rep.nontrivial_key = Some(text.clone());
+            rep.outcome = Some(site.clone());
+            expect_text_program(ctx, &mut rep, "helper-types", case, &site, &text, "4\n", &["C02"], &["C02"], &["C02"]);
             return rep;
         }
         let (pn, un) = (case["place"].as_str().unwrap(), case["type"].as_str().unwrap());
